@@ -78,7 +78,7 @@ def register(PROPS, h):
         assumptions=SVC_TB + ["the environment only produces event orders the real Wire produces: one session per peer at a time, attempted before outbound connected, Io::Fetch for an unconnected peer dropped, worker results in any order and at any later time",
                               "Wire::worker_result's rule (forward iff a connection to that NodeId exists) is transcribed, not executed"],
         gates=dict(quick={"schedules.result-delivered-after-disconnect-and-reconnect": 1000, "schedules.with-two-or-more-fetch-tasks": 10000, "subscriber-results-observed": 30000, "systematic.schedules": 20000},
-                   thorough={"schedules.result-delivered-after-disconnect-and-reconnect": 20000, "systematic.schedules": 300000}),
+                   thorough={"schedules.result-delivered-after-disconnect-and-reconnect": 10000, "systematic.schedules": 100000}),
         exhaustive=dict(quick="all event sequences of length 5 over the reduced 2-peer/1-repository alphabet (12 symbols)", thorough="all event sequences of length 6 over the reduced alphabet"),
         runs=dict(quick=[native("h-node", "C16")], thorough=[native("h-node", "C16"), native("h-node", "C16", profile="release")]),
     )
@@ -119,7 +119,7 @@ def register(PROPS, h):
         assumptions=SVC_TB + ["hooks: wire::verif (Frame) and worker::verif::git_request (feature `verif`)"],
         gates=dict(quick={"bytes.cases": 150000, "bytes.cases-decoding-at-least-one-frame": 60000, "header.cases": 150000, "header.accepted": 4000, "header.rejected": 40000,
                           "service.message:subscribe@connected-inbound": 1500, "service.message:announcement@connected-inbound": 5000, "service.message:announcement@unknown": 1500, "service.message:announcement@attempted": 150, "service.message:ping@connected-outbound": 200},
-                   thorough={"bytes.cases": 7000000, "header.cases": 7000000}),
+                   thorough={"bytes.cases": 1200000, "header.cases": 1200000}),
         runs=dict(quick=[native("h-node", "C13")],
                   thorough=[native("h-node", "C13"), native("h-node", "C13", profile="release"), dict(crate="h-node", prop="C13", wrapper="asan", cases=40000, shards=16, label="h-node:C13:asan", timeout=3600)]),
     )
@@ -138,6 +138,6 @@ def register(PROPS, h):
               "Non-trivial/distinct = case seed."),
         assumptions=[TB, "radicle_node::test::environment (heartwood's own e2e scaffolding) spawns the real Runtime per node", "the `git` executable", "loopback networking in the sandbox"],
         gates=dict(quick={"unauthorized-refused": 200, "authorized-served": 30, "refused.private-not-allowed": 100, "refused.not-seeded": 60},
-                   thorough={"unauthorized-refused": 2000, "authorized-served": 300}),
+                   thorough={"unauthorized-refused": 1000, "authorized-served": 150}),
         runs=dict(quick=[native("h-node", "C12")], thorough=[native("h-node", "C12")]),
     )
